@@ -645,6 +645,9 @@ def equal(a, b):
         return mk(z3.And(sa.n == sb.n,
                          z3.ForAll([j], z3.Implies(z3.And(j >= 0, j < sa.n),
                                                    z3.Select(sa.arr, j + sa.off) == z3.Select(sb.arr, j + sb.off)))), 'bool')
+    if isinstance(a, SSet) and isinstance(b, SSet):
+        j = z3.Int('j!se')
+        return mk(z3.ForAll([j], z3.Select(a.pred, j) == z3.Select(b.pred, j)), 'bool')
     if is_symbolic(a) or is_symbolic(b):
         if (is_num(a) and not is_num(b)) or (is_num(b) and not is_num(a)):
             return False
